@@ -28,7 +28,7 @@ ASSUMPTIONS = ["segmentation is simulated at the socket API (recv return "
                "identified by its exact bytes (re-packed on delivery)"]
 REQUIRED = ["reads", "delivered", "cuts_inside_header", "cuts_inside_body",
             "held_partial", "ctl_cases", "sw_cases", "over_2048",
-            "handshake_streams"]
+            "handshake_streams", "reads_inside_a_handler"]
 TIMEOUT = {"quick": 900, "thorough": 7200}
 
 _cache = {}
@@ -197,6 +197,70 @@ def run_case (case, rep):
   rep.count("ctl_cases" if side == "ctl" else "sw_cases")
   rep.case(("%s|%s|%r" % (side, case["seed"], cuts)).encode(),
            nontrivial=bool(inside_hdr or inside_body))
+
+
+# ---------------------------------------------------------------------------
+# a read that happens while a handler is still running (switch side)
+
+def run_reentrant (case, rep):
+  """
+  The next segment arrives - and is read - from inside the handler of a
+  message of the previous one (a peer in the same process that answers
+  synchronously does this).  Every message must still be delivered exactly
+  once, in order, and nothing may be left over.
+  """
+  boot()
+  import pox.lib.ioworker as iow
+  import pox.datapaths.switch as sw
+  msgs = make_stream("sw", case["seed"], case.get("big", False))
+  stream = b"".join(msgs)
+  cuts = sorted(set(c for c in case["cuts"] if 0 < c < len(stream)))
+  def fire (key, what):
+    rep.violation("C02 sw-reentrant %s" % key, what, case)
+  segs = []; prev = 0
+  for c in cuts + [len(stream)]:
+    segs.append(stream[prev:c]); prev = c
+  sock = simnet.FakeSocket("c02r")
+  loop = getattr(run_case, "_loop", None)
+  if loop is None:
+    loop = iow.RecocoIOLoop(); run_case._loop = loop
+  worker = iow.RecocoIOWorker(sock)
+  worker.pinger = loop.pinger
+  worker.on_close = lambda w: None
+  conn = sw.OFConnection(worker)
+  got = []
+  depth = [0]
+  def handler (c, msg):
+    got.append(msg.pack())
+    if segs and depth[0] < 50:
+      depth[0] += 1
+      rep.count("reads_inside_a_handler")
+      try:
+        sock.feed(segs.pop(0))
+        while sock.rx and not worker.closed: worker._do_recv(loop)
+      finally:
+        depth[0] -= 1
+  conn.set_message_handler(handler)
+  try:
+    while segs:
+      sock.feed(segs.pop(0))
+      while sock.rx and not worker.closed: worker._do_recv(loop)
+      rep.count("reads")
+  except Exception:
+    fire("raises", traceback.format_exc()[-600:])
+    rep.case(("r|%s|%r" % (case["seed"], cuts)).encode(), nontrivial=True); return
+  if worker.closed:
+    fire("connection dropped on well-formed input", "")
+  elif got != msgs:
+    j = 0
+    while j < min(len(got), len(msgs)) and got[j] == msgs[j]: j += 1
+    fire("messages lost, repeated or reordered",
+         "cuts %r: %d delivered, %d sent; first difference at #%d" %
+         (cuts, len(got), len(msgs), j))
+  elif bytes(worker.receive_buf):
+    fire("bytes left over", "%d" % len(worker.receive_buf))
+  rep.count("delivered", len(got))
+  rep.case(("r|%s|%r" % (case["seed"], cuts)).encode(), nontrivial=bool(cuts))
 
 
 # ---------------------------------------------------------------------------
@@ -408,7 +472,10 @@ def run (spec, rep):
   for case in gen_cases(spec):
     try:
       if case.get("kind") == "hs": run_hs(case, rep)
-      else: run_case(case, rep)
+      else:
+        run_case(case, rep)
+        if case["side"] == "sw" and case["cuts"] and len(case["cuts"]) < 40:
+          run_reentrant(case, rep)
     except Exception:
       rep.violation("C02 harness-visible exception",
                     traceback.format_exc()[-900:], case)
@@ -422,4 +489,6 @@ def run (spec, rep):
 def replay (witness, rep):
   boot()
   if witness.get("kind") == "hs": run_hs(witness, rep)
-  else: run_case(witness, rep)
+  else:
+    run_case(witness, rep)
+    if witness["side"] == "sw" and witness["cuts"]: run_reentrant(witness, rep)
